@@ -148,7 +148,7 @@ def rest(ctx):
     ctx.must_call("<may::sync::mpmc::Receiver as std::clone::Clone>::clone", Call(re.escape(MM) + "::clone_rx"), "raii/mpmc-clone-rx-counts", "a cloned Receiver is counted")
     # dependencies (round-3 seeds C07-5, C07-6): the disconnect permit travels through the Semphore hand-off; the spsc thread receiver's re-check
     ctx.import_rules("C10", r"^handshake|^waker")
-    ctx.import_rules("C06", r"^spsc/thread-register-then-recheck")
+    ctx.import_rules("C06", r"^spsc/thread-register-then-recheck|^mpsc/recv/|^spsc/co-")
     taken_waiter_is_woken(ctx, only=r"sync::(mpsc|spsc)::InnerQueue\.(to_wake|wait_co)$")
     channel_bookkeeping_rules(ctx)
     spsc_blocker_tag_rules(ctx)
